@@ -20,14 +20,15 @@ def modPow (a : Nat) : Nat → Nat
   | 0 => one
   | e+1 =>
     let acc := modPow a ((e+1) / 2)
-    let acc := montyred ((acc * acc) % 2^128)
-    if (e+1) % 2 = 1 then montyred ((acc * a) % 2^128) else acc
+    -- the source inlines `Self(Self::montyred(acc.0 as u128 * acc.0 as u128))`, textually the body of `Mul::mul`
+    let acc := bfe_mul acc acc
+    if (e+1) % 2 = 1 then bfe_mul acc a else acc
 decreasing_by omega
 
 /-- the inner `exp` of `inverse`: `k` squarings -/
 def sqN (base : Nat) : Nat → Nat
   | 0 => base
-  | k+1 => sqN (montyred ((base * base) % 2^128)) k
+  | k+1 => sqN (bfe_mul base base) k
 
 /-- `Inverse::inverse` for `BFieldElement`: addition chain for `x^(p-2)`; panics on zero -/
 def inverse (x : Nat) : Option Nat :=
@@ -106,6 +107,6 @@ def sum (xs : List Nat) : Nat :=
 
 /-- `power_accumulator::<N, M>` on one lane -/
 def powerAccumulator (m : Nat) (base tail : Nat) : Nat :=
-  montyred ((sqN base m * tail) % 2^128)
+  bfe_mul (sqN base m) tail
 
 end TF.Model.BF
